@@ -354,6 +354,113 @@ fn tparams_total(input: &[V]) -> Vec<V> {
     vec![tp_decode(input.first().copied().unwrap_or(0) & 1, &bytes)]
 }
 
+/// a payload of `n` zero bytes that is never materialized unless it is encoded into a real buffer
+struct Zeros(usize);
+
+impl EncoderValue for Zeros {
+    fn encode<E: Encoder>(&self, encoder: &mut E) {
+        encoder.write_repeated(self.0, 0)
+    }
+}
+
+/// encoding_size() of the fitted frame and, for frames up to 100000 bytes, the bytes really written
+fn sizes<T: EncoderValue>(frame: &T) -> (V, V) {
+    let size = frame.encoding_size();
+    if size <= 100_000 {
+        let mut buf = vec![0xA5u8; size + 16];
+        let mut e = EncoderBuffer::new(&mut buf);
+        e.encode(frame);
+        (size as V, e.len() as V)
+    } else {
+        (size as V, -1)
+    }
+}
+
+/// case = kind (0 stream / 1 crypto), stream id, offset, data length, fin, capacity
+/// -> [1, payload length, is_last_frame, encoding_size(), bytes written | -1] | [0] (FitError)
+fn fit(input: &[V]) -> Vec<V> {
+    let mut c = Cur::new(input);
+    let kind = c.next();
+    let vi = |v: u64| VarInt::new(v).expect("generator keeps values below 2^62");
+    let id = vi(c.u64());
+    let off = vi(c.u64());
+    let dlen = c.usize();
+    let fin = c.next() != 0;
+    let cap = c.usize();
+    if kind == 0 {
+        let mut frame = s2n_quic_core::frame::Stream {
+            stream_id: id,
+            offset: off,
+            is_last_frame: false,
+            is_fin: false,
+            data: Zeros(dlen),
+        };
+        match frame.try_fit(cap) {
+            Err(_) => vec![0],
+            Ok(len) => {
+                frame.data = Zeros(len);
+                frame.is_fin = fin;
+                let (size, written) = sizes(&frame);
+                vec![1, len as V, frame.is_last_frame as V, size, written]
+            }
+        }
+    } else {
+        let mut frame = s2n_quic_core::frame::Crypto {
+            offset: off,
+            data: Zeros(dlen),
+        };
+        match frame.try_fit(cap) {
+            Err(_) => vec![0],
+            Ok(len) => {
+                frame.data = Zeros(len);
+                let (size, written) = sizes(&frame);
+                vec![1, len as V, 0, size, written]
+            }
+        }
+    }
+}
+
+/// packet number reconstruction through the wire bytes.
+/// case = 0, largest received, tag bits, truncated value -> [expanded]
+/// case = 1, largest acked, pn, largest received          -> [1, n, expanded] | [0]
+fn pnx(input: &[V]) -> Vec<V> {
+    let mut c = Cur::new(input);
+    let kind = c.next();
+    let space = PacketNumberSpace::ApplicationData;
+    let vi = |v: u64| VarInt::new(v).expect("generator keeps values below 2^62");
+    if kind == 0 {
+        let largest = space.new_packet_number(vi(c.u64()));
+        let tag = (c.u64() & 3) as u8;
+        let t = c.u64();
+        let n = tag as usize + 1;
+        let bytes: Vec<u8> = (0..n).map(|i| (t >> (8 * (n - 1 - i))) as u8).collect();
+        let len = space.new_packet_number_len(tag);
+        let (tpn, rest) = len
+            .decode_truncated_packet_number(DecoderBuffer::new(&bytes))
+            .expect("n bytes are present");
+        assert!(rest.is_empty());
+        vec![tpn.expand(largest).as_u64() as V]
+    } else {
+        let la = space.new_packet_number(vi(c.u64()));
+        let pn = space.new_packet_number(vi(c.u64()));
+        let largest = space.new_packet_number(vi(c.u64()));
+        match pn.truncate(la) {
+            None => vec![0],
+            Some(t) => {
+                let mut buf = [0u8; 8];
+                let mut e = EncoderBuffer::new(&mut buf);
+                e.encode(&t);
+                let n = e.len();
+                let len = space.new_packet_number_len(t.len().into_packet_tag_mask());
+                let (t2, _) = len
+                    .decode_truncated_packet_number(DecoderBuffer::new(&buf[..n]))
+                    .expect("the encoder's bytes decode");
+                vec![1, n as V, t2.expand(largest).as_u64() as V]
+            }
+        }
+    }
+}
+
 fn main() {
     main_with(&[
         ("varint", varint),
@@ -362,5 +469,7 @@ fn main() {
         ("pn", pn),
         ("tparams", tparams),
         ("tparams_total", tparams_total),
+        ("pnx", pnx),
+        ("fit", fit),
     ]);
 }
